@@ -762,7 +762,15 @@ func gather(nodes []wNode, codecIsLong bool) wNode {
 			return makeBranch(nodes, resources)
 		}
 
-		newNodes = append(newNodes, makeBranch(nodes[i:], resources))
+		if rest := nodes[i:]; (len(rest) == 1) && (len(rest[0].children) != 0) {
+			// Do not wrap a lone branch node in another branch node. The
+			// wrapper's only child would have the same DPtrMax and a larger
+			// COffset, which the RAC specification (and ChunkReader) rejects
+			// as not making progress. Promote the lone branch node instead.
+			newNodes = append(newNodes, rest[0])
+		} else {
+			newNodes = append(newNodes, makeBranch(nodes[i:], resources))
+		}
 		if len(resources) != 0 {
 			resources = map[OptResource]bool{}
 		}
